@@ -4,6 +4,7 @@ import (
 	"context"
 	"errors"
 	"fmt"
+	"io"
 	"strconv"
 	"strings"
 	"sync"
@@ -34,11 +35,15 @@ type SourceCfg struct {
 	// ReadErrClose: the read error kills the whole stream (acks can no longer be delivered either);
 	// default: only reads fail, the plugin still takes acknowledgments
 	ReadErrClose bool `json:"read_err_close,omitempty"`
+	// ReadErrDelayMs: with ReadErrAt < 0 the first read fails only after this delay (the run is healthy for
+	// a while: failures spaced further apart than the recovery window)
+	ReadErrDelayMs int `json:"read_err_delay_ms,omitempty"`
 	// ill-formed shapes (C09)
 	EmptyPosAt int `json:"empty_pos_at,omitempty"` // record with this index carries an empty position
 	DupPosAt   int `json:"dup_pos_at,omitempty"`   // record with this index repeats the previous position
 	// ack stream faults (C02)
 	FailAckSends int    `json:"fail_ack_sends,omitempty"` // the next k ack sends fail transiently (per run)
+	FailAckFrom  int    `json:"fail_ack_from,omitempty"`  // ... starting with this ack send (1-based; 0/1 = the first)
 	TeardownErr  string `json:"teardown_err,omitempty"`
 	// FaultRuns: open / read faults apply only to the first FaultRuns runs of the plugin (0 = always)
 	FaultRuns int `json:"fault_runs,omitempty"`
@@ -94,11 +99,31 @@ func PosIdx(p []byte) (src string, idx int, ok bool) {
 	return s[:k], i, true
 }
 
+// toErr builds the injected error. Besides plain texts it knows the error identities the engine
+// gives a special meaning to ("EOF" = io.EOF, "canceled" = context.Canceled, "deadline" =
+// context.DeadlineExceeded; "wrap:<token>" wraps the identity in a message): a plugin stream that
+// ends, a call cancelled on the plugin's side. Over gRPC these identities are what the client gets
+// for a closed stream / codes.Canceled / codes.DeadlineExceeded.
 func toErr(s string) error {
 	if s == "" {
 		return nil
 	}
-	return errors.New(s)
+	wrap := strings.HasPrefix(s, "wrap:")
+	var e error
+	switch strings.TrimPrefix(s, "wrap:") {
+	case "EOF":
+		e = io.EOF
+	case "canceled":
+		e = context.Canceled
+	case "deadline":
+		e = context.DeadlineExceeded
+	default:
+		return errors.New(s)
+	}
+	if wrap {
+		return fmt.Errorf("verif: plugin stream failed: %w", e)
+	}
+	return e
 }
 
 func (p *Source) Configure(context.Context, pconnector.SourceConfigureRequest) (pconnector.SourceConfigureResponse, error) {
@@ -147,6 +172,9 @@ func (p *Source) Run(ctx context.Context, s pconnector.SourceRunStream) error {
 	p.st = st
 	p.running = true
 	st.s.failSends = p.Cfg.FailAckSends
+	if p.Cfg.FailAckFrom > 1 {
+		st.s.skipSends = p.Cfg.FailAckFrom - 1
+	}
 	st.s.onFail = func() { p.W.Log.Add("Fault", "what", "ack-send-fail", "conn", p.Cfg.ID) }
 	run := p.run
 	st.s.onSent = func(req pconnector.SourceRunRequest) { p.onAck(req, run) }
@@ -173,6 +201,13 @@ func (p *Source) emitLoop(ctx context.Context, st *srcStream, run int) {
 	srv := st.Server()
 	if p.Cfg.ReadErrAt < 0 && (p.Cfg.FaultRuns == 0 || run <= p.Cfg.FaultRuns) {
 		// the very first read of this run fails
+		if p.Cfg.ReadErrDelayMs > 0 {
+			select {
+			case <-ctx.Done():
+				return
+			case <-time.After(time.Duration(p.Cfg.ReadErrDelayMs) * time.Millisecond):
+			}
+		}
 		p.W.Log.Add("Fault", "what", "read-err", "conn", p.Cfg.ID, "err", p.Cfg.ReadErr)
 		if p.Cfg.ReadErrClose {
 			st.s.close(toErr(p.Cfg.ReadErr))
@@ -338,13 +373,19 @@ func (p *Source) Stop(context.Context, pconnector.SourceStopRequest) (pconnector
 	return pconnector.SourceStopResponse{LastPosition: p.lastPos}, nil
 }
 
-func (p *Source) Teardown(context.Context, pconnector.SourceTeardownRequest) (pconnector.SourceTeardownResponse, error) {
+func (p *Source) Teardown(ctx context.Context, _ pconnector.SourceTeardownRequest) (pconnector.SourceTeardownResponse, error) {
 	p.mu.Lock()
 	defer p.mu.Unlock()
 	p.tears++
 	p.running = false
 	p.W.Log.Add("Teardown", "conn", p.Cfg.ID, "key", p.Cfg.ID, "kind", "source", "run", p.run)
 	p.cond.Broadcast()
+	if err := ctx.Err(); err != nil && p.Cfg.TeardownErr == "" {
+		// a plugin reached over gRPC answers a call made with a cancelled context with that error; the
+		// plugin itself is torn down all the same (the host kills the process)
+		p.W.Log.Add("Fault", "what", "teardown-ctx", "conn", p.Cfg.ID, "err", err.Error())
+		return pconnector.SourceTeardownResponse{}, err
+	}
 	return pconnector.SourceTeardownResponse{}, toErr(p.Cfg.TeardownErr)
 }
 
